@@ -22,9 +22,12 @@ THEOREMS = ["Mesa.ASet." + t for t in (
     "C03_inplace_equals_copy_and_copy_preserves", "C03_get_set_agg_map_list_semantics",
     "C03_set_algebra_members_and_order", "C03_comparisons_are_subset_order", "C03_inplace_operators_match_copying",
     "C03_index_count_reversed_agree", "C03_operators_pop_clear_on_the_store", "C03_dead_member_leaves_every_set",
+    "C03_select_every_parameter_combination", "C03_constructor_keeps_first_occurrences", "C03_set_writes_members_only",
+    "C03_both_code_paths_build_the_same_set", "C03_set_then_get_reads_the_value",
+    "C03_getitem_negative_indices_and_slices", "C03_agg_min_max_and_error_arms",
     "C18_agents_remove_absent_reject_unchanged", "C18_agents_sort_missing_key_reject_unchanged",
     "C18_agents_groupby_missing_key_reject_unchanged", "C18_agents_pop_empty_reject_unchanged",
-    "C18_agents_any_reject_unchanged")]
+    "C18_agents_any_reject_unchanged", "C18_agents_reject_exactly_when")]
 COUNTS = {"quick": 1200, "thorough": 150000}
 TRUSTED = [
     "CPython dict / WeakKeyDictionary insertion order; sorted() is a stable sort and reverse=True keeps the order of equal keys (the model uses List.mergeSort)",
@@ -982,6 +985,9 @@ def tags(sc, obs):
         if w[0] == "select":
             yield "at_most:" + w[4].split(":")[0]
             yield "select:" + ("inplace" if w[5] == "1" else "copy")
+            # the combination of parameters (C03_select_every_parameter_combination)
+            yield ("select-combo:" + ("filter" if w[2] != "-" else "nofilter") + "+" + ("type" if w[3] != "-" else "notype")
+                   + "+" + w[4].split(":")[0] + "+" + ("inplace" if w[5] == "1" else "copy"))
             if w[3] != "-":
                 yield "select:agent_type"
             if len(ev["pre"][0][int(w[1])]) == 0:
